@@ -158,6 +158,13 @@ func c16Observe(c *core.Ctx, mask int, other string, want rules.CosmeticOption) 
 		judge("Engine.MatchRequest(with referrer)", eng.MatchRequest(rules.NewRequest("http://example.org/", src, rules.TypeDocument)).GetCosmeticOption())
 	}
 	judge("Engine.MatchRequest(unrelated source)", eng.MatchRequest(rules.NewRequest("http://example.org/", "http://unrelated.example.net/", rules.TypeDocument)).GetCosmeticOption())
+	// The proxy matches a request object twice: when the request arrives (the
+	// content type is still a guess) and again when the response headers show
+	// that it is a document.
+	reused := rules.NewRequest("http://example.org/", "", rules.TypeScript)
+	_ = eng.MatchRequest(reused).GetCosmeticOption()
+	reused.RequestType = rules.TypeDocument
+	judge("Engine.MatchRequest(request object matched before as a script)", eng.MatchRequest(reused).GetCosmeticOption())
 
 	// Path 3: decoded by GetCosmeticResult.
 	cr := eng.GetCosmeticResult("example.org", got)
